@@ -469,7 +469,7 @@ int gt_is_valid(const gt_t a) {
 	const int *b;
 	dig_t rem;
 
-	if (gt_is_unity(a)) {
+	if (gt_is_unity(a) || gt_cmp_dig(a, 0) == RLC_EQ) {
 		return 0;
 	}
 
